@@ -576,7 +576,7 @@ func runSourceFaults(c *Ctx) error {
 // ---- invalid settings ----
 
 func runInvalidSettings(c *Ctx, tree *SrcTree) {
-	fam := c.Rep.Family("invalid-settings", "exhaustive list of invalid-setting classes x the formats they apply to, each on an otherwise valid one-file configuration: deb compression bogus; rpm compression bogus / gzip:notanumber / a:b:c; rpm epoch abc; deb signature type bogus with a key (debsign); platform darwin for apk and archlinux; archlinux name #bad; content type bogus; empty name; empty version; a relation with an operator rpm does not know at the first/middle/last place of each of the six relation lists (rpm); failing signing callback for deb (debsign and dpkg-sig), rpm, apk. Package must return a non-nil error. non-trivial = always")
+	fam := c.Rep.Family("invalid-settings", "exhaustive list of invalid-setting classes x the formats they apply to, each on an otherwise valid one-file configuration: deb compression bogus; rpm compression bogus / gzip:notanumber / a:b:c; rpm epoch abc; deb signature type bogus with a key or with a signing callback, wrong case, the dpkg-sig role under debsign; platform darwin for apk and archlinux; archlinux name #bad; content type bogus; empty name; empty version; a relation with an operator rpm does not know at the first/middle/last place of each of the six relation lists (rpm); failing signing callback for deb (debsign and dpkg-sig), rpm, apk. Package must return a non-nil error. non-trivial = always")
 	fam.Exhaustive = true
 	keys := c06KeyFiles(c.Repo)
 	signErr := errors.New("c06: signing callback refuses")
@@ -595,6 +595,18 @@ func runInvalidSettings(c *Ctx, tree *SrcTree) {
 		{"signature-type", "deb.signature.type=bogus with key_file", []string{"deb"}, func(i *nfpm.Info) {
 			i.Deb.Signature.KeyFile = keys.pgp
 			i.Deb.Signature.Type = "bogus"
+		}},
+		{"signature-type", "deb.signature.type=bogus with a signing callback and no key file", []string{"deb"}, func(i *nfpm.Info) {
+			i.Deb.Signature.SignFn = func(io.Reader) ([]byte, error) { return []byte("sig"), nil }
+			i.Deb.Signature.Type = "bogus"
+		}},
+		{"signature-type", "deb.signature.type=Origin (wrong case) with a signing callback", []string{"deb"}, func(i *nfpm.Info) {
+			i.Deb.Signature.SignFn = func(io.Reader) ([]byte, error) { return []byte("sig"), nil }
+			i.Deb.Signature.Type = "Origin"
+		}},
+		{"signature-type", "deb.signature.type=builder under method debsign with a key", []string{"deb"}, func(i *nfpm.Info) {
+			i.Deb.Signature.KeyFile = keys.pgp
+			i.Deb.Signature.Type = "builder"
 		}},
 		{"platform", "platform=darwin", []string{"apk", "archlinux"}, func(i *nfpm.Info) { i.Platform = "darwin" }},
 		{"package-name", "name=#bad", []string{"archlinux"}, func(i *nfpm.Info) { i.Name = "#bad" }},
